@@ -473,7 +473,10 @@ pub struct H3 {
     /// declared with capitals: header names are case-insensitive
     #[serde(rename = "X-Vmon-B")]
     pub b: String,
-    #[serde(rename = "etag")]
+    /// an optional header: absent from the response when empty (the only way to declare
+    /// one, the header serializer accepts strings only), so the set of header names of
+    /// this type varies from response to response
+    #[serde(rename = "ETag", skip_serializing_if = "String::is_empty")]
     pub etag: String,
 }
 
